@@ -311,6 +311,20 @@ def parse_graph(out):
     return [(r["depth"], r["name"], r["calls"], r["time"]) for r in rows]
 
 
+def graph_section(out):
+    """the raw lines between the column header and the closing empty line ([] when there is no such section)"""
+    lines = out.split(b"\n")
+    for k, l in enumerate(lines):
+        if l.startswith(b"# TOTAL TIME"):
+            res = []
+            for x in lines[k + 1:]:
+                if x == b"":
+                    return res
+                res.append(x)
+            return res
+    return []
+
+
 def parse_flame(out):
     return [l for l in out.split(b"\n") if l != b""]
 
@@ -437,7 +451,7 @@ def ccase(c, p):
 
 PRE = """From Coq Require Import NArith List Bool Uint63.
 Import ListNotations.
-Require Import UV.C15.Model UV.C15.Doc UV.C15.GraphF UV.C15.Lit.
+Require Import UV.C15.Model UV.C15.Doc UV.C15.GraphF UV.C15.GraphText UV.C15.Lit.
 Local Open Scope uint63_scope.
 """
 KINDS = ["graph", "flame0", "flameS", "dot", "mermaid", "chrome"]
@@ -453,7 +467,7 @@ def evaluate_cases(ctx, cases, parsed, name="cases", flame_fixed=False):
         evals.append(("violation_" + k, "bad_indices okc_%s cases 0" % k))
     docs = [(i, dd) for i, p in enumerate(parsed) for dd in p.get("docs", [])]
     # the documents are the bulk of the literals: at most ~2.5 MB of them go to Coq (python's json judged them all)
-    budget = 2500000
+    budget = 1500000
     kept = []
     for i, dd in docs:
         if len(dd["raw"]) <= budget:
@@ -473,6 +487,11 @@ def evaluate_cases(ctx, cases, parsed, name="cases", flame_fixed=False):
         for i, (func, rows) in fcs)
     evals.append(("mismatch_graphf", "bad_indices agree_graphf fcases 0"))
     evals.append(("violation_graphf", "bad_indices okc_graphf fcases 0"))
+    tcs = [(i, tx) for i, p in enumerate(parsed) for tx in p.get("texts", [])]
+    defs += "Definition tcases : list tcase := [\n%s\n].\n" % ";\n".join(
+        "mk_tcase (nth %d%%nat cases (mk_case [] [] [] [] 0%%N [] [] [] [] [] [] true [] [])) %s %s" % (
+            i, "None" if func is None else "(Some %s)" % cb(func), clines(lines)) for i, (func, lines) in tcs)
+    evals.append(("mismatch_text", "bad_indices agree_text tcases 0"))
     # the validator itself against python's json on damaged documents (single-byte edits of real outputs)
     muts = []
     mrng = __import__("random").Random(ctx.subseed("muts"))
@@ -501,6 +520,8 @@ def evaluate_cases(ctx, cases, parsed, name="cases", flame_fixed=False):
         return None
     res = {k: coq.parse_nat_list(v) for k, v in res.items()}
     res["muts"] = muts
+    res["text_owner"] = [i for i, _ in tcs]
+    res["text_list"] = [t for _, t in tcs]
     res["graphf_owner"] = [i for i, _ in fcs]
     res["graphf_list"] = [f for _, f in fcs]
     res["doc_owner"] = [i for i, _ in docs]
@@ -549,6 +570,7 @@ def run_case(objdir, c, d, cmdline=b"prog arg", with_cmdline=True):
     p = {"graph": parse_graph(o["graph"]), "flame0": parse_flame(o["flame0"]), "flameS": parse_flame(o["flameS"]),
          "dot": parse_dot(o["dot"]), "mermaid": parse_mermaid(o["mermaid"]), "chrome": evs, "json_ok": ok,
          "meta": meta, "doc": doc, "raw_chrome": o["chrome"]}
+    p["texts"] = [(None, graph_section(o["graph"]))]
     p["docs"] = [doc_inputs(c, o["chrome"], cmdline, with_cmdline)]
     return p
 
@@ -562,12 +584,12 @@ def run_graphf(objdir, c, d, rng, func=None):
     if rc != 0:
         raise ParseError("uftrace graph FUNC exited with %d: %r" % (rc, err[-300:]))
     if b"cannot find graph" in out:
-        return func, None
+        return func, None, out
     if b"# TOTAL TIME" not in out:
         if b"BACKTRACE" not in out:
             raise ParseError("graph FUNC printed neither a graph nor a backtrace: %r" % out[:200])
-        return func, []
-    return func, parse_graph(out)
+        return func, [], out
+    return func, parse_graph(out), out
 
 
 def run_noev(objdir, c, d, rng, cmdline=b"prog arg", with_cmdline=True):
@@ -902,6 +924,18 @@ def verdict(ctx, cases, parsed, res, flame_fixed=False):
                        "case": case_json(cases[i], parsed[i])}, False)
         anyviol = True
     ctx.extra["graph_func_cases"] = len(res.get("graphf_list", []))
+    # the raw text of the FUNCTION CALL GRAPH section (model of print_graph_node / pr_indent / print_time_unit)
+    if not anyviol and res.get("mismatch_text"):
+        j = res["mismatch_text"][0]
+        i = res["text_owner"][j]
+        func = res["text_list"][j][0]
+        ctx.violation("model and implementation disagree on the text of the call graph section (%d outputs); the "
+                      "row checkers accept every explored output" % len(res["mismatch_text"]),
+                      {"kind": "dir", "output": "graph-text", "func": None if func is None else func.hex(),
+                       "lines": [l.decode("latin-1") for l in res["text_list"][j][1]],
+                       "case": case_json(cases[i], parsed[i])}, False)
+        anyviol = True
+    ctx.extra["graph_sections_compared_bytewise"] = len(res.get("text_list", []))
     # the whole --chrome document: Coq's JSON validator on the implementation's bytes, cross-checked with python's
     for j in res.get("violation_doc", [])[:2]:
         anyviol = True
@@ -1022,7 +1056,7 @@ def run(ctx):
          "recs": [(100, True, 0, 1000), (100, True, 1, 1000), (100, False, 1, 1600), (100, True, 1, 1600),
                   (100, False, 1, 2200), (100, False, 0, 2200)]},
     ]
-    n = ctx.n(150, 2500)
+    n = ctx.n(150, 1200)
     d = os.path.join(ctx.scratch, "dir")
     i = -1
     while True:
@@ -1051,7 +1085,9 @@ def run(ctx):
             continue
         if i % 3 != 2:
             try:
-                p["graphf"] = run_graphf(objdir, c, d, ctx.rng)
+                gf = run_graphf(objdir, c, d, ctx.rng)
+                p["graphf"] = gf[:2]
+                p["texts"].append((gf[0], graph_section(gf[2])))
                 extra_tags.append("graph-func:" + ("not-called" if p["graphf"][1] is None else
                                                    "zero-time-leaf" if p["graphf"][1] == [] else "called"))
             except ParseError as e:
@@ -1086,7 +1122,9 @@ def replay(ctx, obj):
         flame_fixed = not witnesses(ctx, objdir, hexe)["flame-count-truncated"]
         p = run_case(objdir, c, os.path.join(ctx.scratch, "dir"))
         if obj.get("func") is not None:
-            p["graphf"] = run_graphf(objdir, c, os.path.join(ctx.scratch, "dir"), ctx.rng, bytes.fromhex(obj["func"]))
+            gf = run_graphf(objdir, c, os.path.join(ctx.scratch, "dir"), ctx.rng, bytes.fromhex(obj["func"]))
+            p["graphf"] = gf[:2]
+            p["texts"].append((gf[0], graph_section(gf[2])))
         ctx.case(key="replay", sample=case_json(c, p))
         res = evaluate_cases(ctx, [c], [p], flame_fixed=flame_fixed)
         ctx.log("replayed directory case:", res)
